@@ -770,7 +770,7 @@ def consumers(ctx) -> None:
                 n += 1
                 li = linear_in(e.pos[0], [("attr", SELF, "current_time"), ("attr", SELF, "target_time")])
                 ok = li is not None and all(abs(c.imag) < 1e-12 and c.real >= -1e-12 for c in li[:2]) and \
-                    abs(li[0] + li[1] - 1) < 1e-12 and abs(li[2]) < 1e-12
+                    abs(li[0] + li[1] - 1) < 1e-12 and abs(li[2]) < 1e-12 and li[0].real > 1e-12   # in [current, target)
                 ctx.ob("INTERACT-time", "emu-mps query time", e.loc(), ok,
                        "the interaction matrix is queried at a convex combination of current_time and target_time"
                        if ok else f"the interaction matrix is queried at {show(e.pos[0])[:80]}, not at a time of the "
